@@ -608,7 +608,11 @@ class DateTime(Element):
 
             gmt_offset_hours = utils.TZS[tz_name]
 
-        return utils.gmt_offset(gmt_offset_hours, int(minutes or 0))
+        gmt_offset = utils.gmt_offset(gmt_offset_hours, int(minutes or 0))
+        if gmt_offset_hours == 0 and hours is not None and hours.startswith("-"):
+            # "-0.30": an integer zero carries no sign, so take it from the text
+            gmt_offset = -gmt_offset
+        return gmt_offset
 
     def normalize_to_gmt(self, value, gmt_offset):
         # Adjust timezone to GMT/UTC
